@@ -317,7 +317,7 @@ impl<'c, 's> Run<'c, 's> {
                 None => first = Some((nj, dj)),
                 Some((n0, d)) => {
                     self.eval(Prop::C09, "C09/context-independence");
-                    if d != dj {
+                    if d != dj && !d.is_panic() && !dj.is_panic() {
                         self.viol(
                             Prop::C09,
                             "C09/context-dependence".into(),
@@ -430,7 +430,9 @@ impl<'c, 's> Run<'c, 's> {
         if !d.is_panic() && !p.is_panic() {
             self.eval(Prop::C11, "C11/process-vs-decode");
             let pr = parse(&b);
-            if d != p {
+            // (a process-only driver has no decode result from the same context to compare with:
+            // the scratch decode would turn a context-dependent decoder, C09's matter, into a C11 alarm)
+            if d != p && mode != 2 {
                 let cls = if d.is_ok() { type_name(pr.mtype, pr.rq) } else { "rejected" };
                 self.viol(
                     Prop::C11,
